@@ -1,11 +1,17 @@
 (* Executable validator of degree claims (C07): every degree range attached
-   to a node of an annotated, array-free SSA graph is the one the operator
-   tables give for the ranges of the operands; a variable read carries the
-   range of its declaration kind (signal or component: linear; template
-   parameter: constant; function parameter: constant..linear) or the range
-   shared by all its defining assignments; a phi carries the infimum over all
-   its arguments.  Soundness w.r.t. the polynomial-degree semantics is proved
-   in Proofs.DegGraphProofs.  Definitions only. *)
+   to a node of an annotated SSA graph is the one the operator tables give for
+   the ranges of the operands; a variable read carries the range of its
+   declaration kind (signal or component: linear; template parameter: constant;
+   function parameter: constant..linear) or the range shared by all its defining
+   assignments; a phi carries the infimum over all its arguments; an inline
+   array the infimum over its elements; an access the range of the array if
+   every index is known constant, with upper end non-quadratic if one is known
+   not to be, and nothing otherwise; an element-wise update the infimum of the
+   array's range and the new element's (the new element's alone for the first
+   assignment to a never-assigned array, nothing if the array is assigned but its
+   range unknown), adjusted by the indices in the same way.  Soundness w.r.t. the
+   polynomial-degree semantics is proved in Proofs.DegGraphProofs.
+   Definitions only. *)
 From Coq Require Import ZArith NArith List Bool.
 Require Import Model.Base Model.Ir Model.Propagate Model.Justify Gen.DegreeTable.
 Import ListNotations.
@@ -14,32 +20,6 @@ Definition drange_eqb (a b : drange) : bool :=
   degree_eqb (fst a) (fst b) && degree_eqb (snd a) (snd b).
 Definition opt_drange_eqb (a : option drange) (r : drange) : bool :=
   match a with Some x => drange_eqb x r | None => false end.
-
-(* no array form anywhere (arrays are the known finding C07-array-degree) *)
-Fixpoint array_free_expr (e : expr) {struct e} : bool :=
-  let fix af_list (es : list expr) : bool :=
-      match es with [] => true | x :: tl => array_free_expr x && af_list tl end in
-  match e with
-  | ENum _ _ | EVar _ _ | EPhi _ _ => true
-  | EInfix _ l r _ => array_free_expr l && array_free_expr r
-  | EPrefix _ x _ => array_free_expr x
-  | ESwitch c t f _ => array_free_expr c && array_free_expr t && array_free_expr f
-  | ECall _ args _ => af_list args
-  | EArray _ _ | EAccess _ _ _ | EUpdate _ _ _ _ => false
-  end.
-
-Definition array_free_stmt (s : stmt) : bool :=
-  match s with
-  | SDecl _ _ _ dims => match dims with [] => true | _ => false end
-  | SIf _ c _ _ => array_free_expr c
-  | SRet _ e => array_free_expr e
-  | SSubst _ _ _ rhe _ _ => array_free_expr rhe
-  | SCeq _ l r => array_free_expr l && array_free_expr r
-  | SLog _ args => forallb (fun a => match a with LStr => true | LExpr e => array_free_expr e end) args
-  | SAssert _ e => array_free_expr e
-  end.
-
-Definition array_free_cfg (c : cfg) : bool := forallb array_free_stmt (all_stmts (c_blocks c)).
 
 (* the degree of a defining assignment *)
 Definition ddef_ok (v : vname) (r : drange) (s : stmt) : bool :=
@@ -77,12 +57,34 @@ Definition var_range (c : cfg) (v : vname) : option drange :=
     | None => None
     end.
 
+(* a local (or undeclared) name that no statement assigns and that is not a
+   parameter: it holds zeros (Circom), and an element-wise update of it is its
+   first assignment *)
+Definition unassigned (c : cfg) (v : vname) : bool :=
+  negb (existsb (defines v) (all_stmts (c_blocks c))) && negb (is_param c v) &&
+  match decl_of c v with Some TLocal | None => true | Some _ => false end.
+
+Definition update_base_range (c : cfg) (v : vname) (rhe_deg : option drange) : option drange :=
+  match var_range c v with
+  | Some rv => iter_opt [Some rv; rhe_deg]
+  | None => if unassigned c v then rhe_deg else None
+  end.
+
+Definition opt_index_adjust (acc : list (access expr)) (o : option drange) : option drange :=
+  match o with Some rg => index_adjust acc rg | None => None end.
+
 Definition deg_claim_is (k : know) (o : option drange) : bool :=
   match kdeg k with None => true | Some r => opt_drange_eqb o r end.
 
 Fixpoint djust_expr (c : cfg) (e : expr) {struct e} : bool :=
   let fix dj_list (es : list expr) : bool :=
       match es with [] => true | x :: tl => djust_expr c x && dj_list tl end in
+  let fix dj_acc (acc : list (access expr)) : bool :=
+      match acc with
+      | [] => true
+      | AIdx x :: tl => djust_expr c x && dj_acc tl
+      | AComp _ :: tl => dj_acc tl
+      end in
   match e with
   | ENum _ k => deg_claim_is k (Some (DConst, DConst))
   | EVar v k => deg_claim_is k (var_range c v)
@@ -99,7 +101,11 @@ Fixpoint djust_expr (c : cfg) (e : expr) {struct e} : bool :=
   | ECall _ args k =>
     dj_list args && deg_claim_is k (if all_constant args then Some (DConst, DConst) else None)
   | EPhi args k => deg_claim_is k (iter_opt (map (var_range c) args))
-  | EArray _ _ | EAccess _ _ _ | EUpdate _ _ _ _ => false
+  | EArray vs k => dj_list vs && deg_claim_is k (iter_opt (map expr_deg vs))
+  | EAccess v acc k => dj_acc acc && deg_claim_is k (opt_index_adjust acc (var_range c v))
+  | EUpdate v acc rhe k =>
+    dj_acc acc && djust_expr c rhe &&
+    deg_claim_is k (opt_index_adjust acc (update_base_range c v (expr_deg rhe)))
   end.
 
 Definition djust_stmt (c : cfg) (s : stmt) : bool :=
@@ -113,6 +119,4 @@ Definition djust_stmt (c : cfg) (s : stmt) : bool :=
   | SAssert _ e => djust_expr c e
   end.
 
-(* array-free graphs only; others belong to the known finding C07-array-degree *)
-Definition djust_cfg (c : cfg) : bool :=
-  array_free_cfg c && forallb (djust_stmt c) (all_stmts (c_blocks c)).
+Definition djust_cfg (c : cfg) : bool := forallb (djust_stmt c) (all_stmts (c_blocks c)).
